@@ -22,6 +22,7 @@ def run_conc(R, ctx, name, scenarios, rounds, race=True, env_extra=None):
     counts = collections.Counter()
     reports = []
     races = 0
+    crashes = []
     for label, b in bins:
         env = core.goenv()
         env.update(env_extra or {})
@@ -42,6 +43,19 @@ def run_conc(R, ctx, name, scenarios, rounds, race=True, env_extra=None):
             r["build"] = label
             reports.append(r)
             counts[(r["scenario"], r["result"])] += 1
+        if rc != 0:
+            # the engine's process ended abnormally: a Go runtime fatal error (unlock of an unlocked mutex, concurrent map writes, out of memory) or a panic outside
+            # any recover kills the whole process - in the server that is every client's connection.  rc 124 = the orchestrator's timeout.
+            at = se.find("fatal error:")
+            if at < 0:
+                at = se.find("panic:")
+            tail = se[at:][:2500] if at >= 0 else se[-1500:]
+            done = [r["scenario"] for r in reports if r["build"] == label]
+            crashes.append((label, rc))
+            R.violation("%s-crash-%s" % (name, label), dict(kind="impl-violates-spec", engine="conc", summary=("the conc engine's process %s (rc %d) after %d reports (last finished scenario: %s): %s" % (
+                "was killed at the time limit" if rc == 124 else "died", rc, len(done), done[-1] if done else "none", tail.split("\n\n")[0][:600])).replace("\n", " | "),
+                stderr=tail, args=["conc", str(R.seed * 31 + (7 if label == "race" else 0)), str(rounds_here), ",".join(scenarios)],
+                explanation="concurrent use crashed the process (or wedged it): in the server that ends every connection"))
         if nrace:
             first = se[se.find("WARNING: DATA RACE"):][:3000]
             R.violation("%s-race" % name, dict(kind="impl-violates-spec", engine="conc", summary="data race reported by the Go race detector (%d reports)" % nrace,
@@ -54,7 +68,7 @@ def run_conc(R, ctx, name, scenarios, rounds, race=True, env_extra=None):
     R.extra.setdefault("conc", {})[name] = dict(histories=len(reports), operations=ops, results={"%s/%s" % k: v for k, v in counts.items()}, race_reports=races)
     bad = [r for r in reports if r["result"] != "ok"]
     R.oblige("conc/%s: every history linearizable, lockset discipline kept, invariants hold at quiescence, nothing stuck, no data race" % name,
-             "exploration", not bad and races == 0, "%d bad histories, %d race reports" % (len(bad), races))
+             "exploration", not bad and races == 0 and not crashes, "%d bad histories, %d race reports%s" % (len(bad), races, "; engine process died: %s" % crashes if crashes else ""))
     seen = set()
     for r in bad:
         key = (r["scenario"], r["result"])
